@@ -4,11 +4,13 @@ exploration in spec/Quill.tla. The flush handshake under release/acquire (the ba
 load, the sink writes ordered before the return): spec/StopRA.tla with the memory orders extracted from the code, replayed on
 the REAL backend thread / flush_log() on a shim atomic (tools/stopmodel.py, harness/h_stop)."""
 import json, os
-import sysfam, qsys, stopmodel
+import sysfam, qsys, stopmodel, newctxmodel
 
 
 def run(ck):
     stopmodel.run_for(ck)
+    # a thread whose context the backend never picks up: its flush_log() never returns (spec/NewCtxRA.tla, runs ending with flush_log)
+    newctxmodel.run_for(ck)
     if os.environ.get("VERIF_PART") == "model":
         return
     sysfam.run_family(ck, "C06", 250 if ck.tier == "quick" else 3000)
